@@ -11,7 +11,7 @@ package stack
 //verif:prop C03
 //verif:param st 0..19
 //verif:param n quick=1..14 thorough=1..20
-//verif:param plen 0..1
+//verif:param plen 0..2
 //verif:param sh 0..1
 //verif:contract (*Func).Init parseArgs
 //verif:summarize trimLeftSpace atou
@@ -116,4 +116,47 @@ func VH_C10_StepFrame(st, n int) {
 			vAssert(vhSigEq(&g.Signature, &before[i].sg), "earlier goroutine's signature untouched")
 		}
 	}
+}
+
+// VH_C03_AggregateShapes: goroutines whose frames agree but whose aggregate
+// arguments differ in field count or nesting are aggregated at every level
+// without a runtime panic, and no goroutine is lost.
+//
+//verif:prop C03
+//verif:param n1 0..2
+//verif:param n2 0..2
+//verif:param nest 0..2
+//verif:param level 0..3
+//verif:replay-iters 50
+func VH_C03_AggregateShapes(n1, n2, nest, level int) {
+	mk := func(tag string, n int, nested bool) *Goroutine {
+		g := &Goroutine{}
+		g.State = "s"
+		c := Call{}
+		c.Func.Complete = "f"
+		c.RemoteSrcPath = "/a.go"
+		c.Line = 1
+		var fields []Arg
+		for i := 0; i < n; i++ {
+			a := Arg{Value: uint64(vByte(tag + ".v" + string(rune('0'+i))))}
+			if nested && i == n-1 {
+				a = Arg{IsAggregate: true, Fields: Args{Values: []Arg{a}}}
+			}
+			fields = append(fields, a)
+		}
+		c.Args.Values = []Arg{{IsAggregate: true, Fields: Args{Values: fields}}, {Value: 1}}
+		g.Stack.Calls = []Call{c}
+		return g
+	}
+	s := &Snapshot{}
+	a, b := mk("a", n1, nest == 1), mk("b", n2, nest == 2)
+	a.ID, a.First, b.ID = 1, true, 2
+	s.Goroutines = []*Goroutine{a, b}
+	agg := s.Aggregate(Similarity(level))
+	vReach("aggregated")
+	total := 0
+	for _, bk := range agg.Buckets {
+		total += len(bk.IDs)
+	}
+	vAssert(total == 2, "no goroutine is lost")
 }
